@@ -7,11 +7,13 @@
        shape errors from inside training (context width, fewer rows than clusters are rejected before anything
        is assigned in the repaired code: fixes D9, Clusters history, TreeBandit width);
      * predict / predict_expectations before the first fit.
+     * linear policies: a partial_fit with another context width is rejected from inside training by the first arm that has
+       rows and leaves the policy and the bandit Leibniz-equal (C17Lin);
     ..._partial: linear policies and Clusters over linear policies can raise from np.linalg.inv inside a per-arm
     task after earlier arms were updated (l2_lambda = 0 only); that branch is modelled, not excluded, and is
     outside the theorem. Ill-typed arguments are outside the model and covered by the 19-class relation. *)
 From Coq Require Import List ZArith Bool Arith QArith Qcanon Permutation.
-From MW Require Import Num Assoc AssocFacts Rng Par CF CFInv CFClean CFForget CFSpec Matrix Lin Warm WarmInv Nbr NbrFacts NbrIndep LshFacts Clu Tree CellFacts Mab FacadeCF FacadeArms MoreFacts NumLaws CFAlg Sim Extra QcInst.
+From MW Require Import Num Assoc AssocFacts Rng Par CF CFInv CFClean CFForget CFSpec Matrix Lin Warm WarmInv Nbr NbrFacts NbrIndep LshFacts Clu Tree CellFacts Mab FacadeCF FacadeArms MoreFacts NumLaws CFAlg Sim Extra QcInst OrderFacts ExpIrrel LinInv FacadeLin LpInv NbrInv CluTreeInv FacadeAll ToyFacts C09All C10All LinForget LinSim MatrixFacts GaussJordan LinSpec NbrIndepGen CluIndep C17Lin WarmIdem.
 Import ListNotations.
 
 Theorem C17_rejected_arm_or_warm_start_call_changes_nothing :
@@ -41,6 +43,30 @@ Theorem C17_query_before_fit_rejected_without_change :
   step N aeqb RG m (PredictExp cx orc) = (m, ORejected).
 Proof. exact @rejected_query_before_fit. Qed.
 Print Assumptions C17_query_before_fit_rejected_without_change.
+
+Theorem C17_rejected_linear_partial_fit_changes_nothing :
+  forall (R A G : Type) (N : Num R) (aeqb : A -> A -> bool) (RG : RngOps R G) 
+    (m : (@mab R A G)) (s : (@lin R A G)) (ds : list A) (rs : list R) (cx : (@mat R)) (orc : (@oracle R A)) 
+    (w d : nat),
+  m_imp m = ILin s ->
+  m_fitted m = true ->
+  l_nf s = Some d ->
+  uniform_width w cx ->
+  w <> d ->
+  snd (step N aeqb RG m (PartialFit ds rs (Some cx) orc)) = ORejected ->
+  fst (step N aeqb RG m (PartialFit ds rs (Some cx) orc)) = m.
+Proof. exact @rejected_linear_partial_fit_changes_nothing. Qed.
+Print Assumptions C17_rejected_linear_partial_fit_changes_nothing.
+
+Theorem C17_linear_policy_unchanged_by_width_rejected_partial_fit :
+  forall (R A G : Type) (N : Num R) (aeqb : A -> A -> bool) (s : (@lin R A G)) (g : G) 
+    (ds : list A) (rs : list R) (cx : (@mat R)) (w d : nat),
+  uniform_width w cx ->
+  l_nf s = Some d ->
+  w <> d ->
+  snd (lin_partial_fit N aeqb s g ds rs cx) = false -> fst (lin_partial_fit N aeqb s g ds rs cx) = s.
+Proof. exact @lin_partial_fit_width_rejected. Qed.
+Print Assumptions C17_linear_policy_unchanged_by_width_rejected_partial_fit.
 
 Theorem C17_rejected_add_arm_unchanged :
   forall (R A G : Type) (N : Num R) (aeqb : A -> A -> bool) (RG : RngOps R G) 
